@@ -40,7 +40,10 @@ def strategy(tier, unit):
         st.builds(lambda x, z: [x, x, x * z, 90.0, 90.0, 120.0], a, S.fl(0.5, 2.0)),
         st.builds(lambda x, al: [x, x, x, al, al, al], a, S.fl(62.0, 108.0)),
         st.builds(lambda x, y, z, be: [x, x * y, x * y * z, 90.0, be, 90.0], a, S.fl(1.0, 1.7), S.fl(1.0, 1.7), S.fl(91.0, 118.0)))
-    return st.fixed_dictionaries({"cell": st.one_of(red, red, fam), "M": st.one_of(st.none(), st.integers(0, 6959)),
+    icell = st.tuples(st.integers(3, 12), st.integers(3, 12), st.integers(3, 12), st.sampled_from([90, 90, 80, 100, 95]),
+                      st.sampled_from([90, 100, 105, 80, 110]), st.sampled_from([90, 90, 120, 95, 85])).map(list)
+    return st.fixed_dictionaries({"cell": st.one_of(red, red, fam, icell), "scale": st.one_of(st.just(1.0), S.logfl(0.5, 100.0)),
+                                  "M": st.one_of(st.none(), st.integers(0, 6959)),
                                   "mod": st.sampled_from(["tools", "laue"]),
                                   "pre_uvw": st.sampled_from([None, None, 1, 2, 4, 5])})
 
@@ -109,9 +112,14 @@ def check(case, ctx):
     from xfab import tools, laue
     m = case["mod"]
     mod = tools if m == "tools" else laue
+    integral = all(isinstance(x, int) for x in case["cell"])
     cell = [x + 0.0 for x in case["cell"]]
+    sc_ = case.get("scale", 1.0)
+    if not integral and sc_ != 1.0:
+        cell = [cell[0] * sc_, cell[1] * sc_, cell[2] * sc_] + cell[3:]       # cells from sub-Angstrom units to virus crystals
+        ctx.event("scaled-cell")
     G = O.metric(cell)[0]
-    transformed = case["M"] is not None
+    transformed = case["M"] is not None and not integral
     if transformed:
         M = uni()[case["M"]]
         G = M.T @ G @ M
@@ -142,7 +150,12 @@ def check(case, ctx):
             scp = np.max(np.abs(Gp))
             if not any(np.allclose(R @ R.T, Gp, rtol=0, atol=1e-8 * scp) or np.allclose(R.T @ R, Gp, rtol=0, atol=1e-8 * scp) for (_, _, _, R) in cp):
                 ctx.fail("wrong-vectors-uvw%d/%s" % (pre, m), "%s.reduce_cell(%r, uvw=%d) = %r is not built from the shortest non-coplanar vectors of that range" % (m, cell, pre, pre_out))
-    out = mod.reduce_cell(O.ro(cell) if case.get("M", 0) is not None and case.get("M", 0) % 2 else cell)
+    if integral:
+        carg = [int(x) for x in case["cell"]] if (case["cell"][0] % 2) else np.array(case["cell"], dtype=int)
+        ctx.event("integer-typed-cell")
+    else:
+        carg = O.ro(cell) if case.get("M", 0) is not None and case.get("M", 0) % 2 else cell
+    out = mod.reduce_cell(carg)
     out = [float(x) for x in out]
     if not all(math.isfinite(x) for x in out) or len(out) != 6:
         ctx.fail("non-finite/" + m, "%s.reduce_cell(%r) = %r" % (m, cell, out))
